@@ -287,6 +287,13 @@ func Verif_C19_fb_palette() {
 	f := vfNewFb(3)
 	idx := uint8(1 + 6*zzverif.Choice("index", 2))
 	other := uint8(2)
+	// with a symbolic mask layout (thorough) two palette colours may pack to the same bytes; the checkerboard needs two
+	// colours that differ on the framebuffer
+	differ := false
+	for comp := uint32(0); comp < f.written(); comp++ {
+		differ = zzverif.Or(differ, f.pack(idx, comp) != f.pack(other, comp))
+	}
+	zzverif.Assume(zzverif.Or(differ, f.bpp == 8))
 	for i := 0; i < f.n; i++ {
 		pix, _, _, _, _, comp := f.classify(i)
 		row := uint32(i) / f.pitch
